@@ -298,13 +298,39 @@ class Exchange:
             return 0.0
         price = price if price is not None else b["priceSize"]["price"]
         tot = b["sizeMatched"] + size
-        b["averagePriceMatched"] = round((b["averagePriceMatched"] * b["sizeMatched"] + price * size) / tot, 2)
+        b["averagePriceMatched"] = round((b["averagePriceMatched"] * b["sizeMatched"] + price * size) / tot, 6)  # the exchange reports the average unrounded
         b["sizeMatched"] = round(tot, 2)
         b["sizeRemaining"] = round(b["sizeRemaining"] - size, 2)
         b["matchedDate"] = _iso(self.tick())
         if b["sizeRemaining"] == 0:
             b["status"] = "EXECUTION_COMPLETE"
         return size
+
+    def void(self, bet_id):
+        """the runner is withdrawn: whatever was matched or still open is voided, the bet is complete"""
+        b = self.bets[str(bet_id)]
+        b["sizeVoided"] = round(b["sizeVoided"] + b["sizeMatched"] + b["sizeRemaining"] + (b["bspLiability"] if b["orderType"] != "LIMIT" and not b["sizeMatched"] else 0.0), 2)
+        b["sizeMatched"] = 0.0
+        b["averagePriceMatched"] = 0.0
+        b["sizeRemaining"] = 0.0
+        b["status"] = "EXECUTION_COMPLETE"
+        self.tick()
+
+    def reconcile_sp(self, bet_id, sp):
+        """the starting price is struck: an SP bet is matched at it (a limit-on-close bet only within its limit, otherwise it lapses)"""
+        b = self.bets[str(bet_id)]
+        if b["orderType"] == "LIMIT" or b["status"] != "EXECUTABLE":
+            return
+        lim = b["priceSize"]["price"]
+        ok = b["orderType"] == "MARKET_ON_CLOSE" or (sp >= lim if b["side"] == "BACK" else sp <= lim)
+        if ok:
+            b["averagePriceMatched"] = sp
+            b["sizeMatched"] = round(b["bspLiability"] if b["side"] == "BACK" else b["bspLiability"] / (sp - 1), 2)
+            b["matchedDate"] = _iso(self.tick())
+        else:
+            b["sizeLapsed"] = 0.0
+            b["lapsedDate"] = _iso(self.tick())
+        b["status"] = "EXECUTION_COMPLETE"
 
     def lapse(self, bet_id):
         b = self.bets[str(bet_id)]
